@@ -4,6 +4,11 @@ import "sort"
 
 var Registry = map[string]func() int{
 	"C01": C01,
+	"C03": C03,
+	"C04": C04,
+	"C05": C05,
+	"C02": C02,
+	"C19": C19,
 }
 
 func IDs() []string {
